@@ -94,6 +94,17 @@ def run(ctx):
         cases.append({"id": "b%d" % i, "kind": "c15", "abs": {}, "args": {"ops": c["ops"]}})
     if not cases:
         raise core.MachineryFailure("GlobalState emitted no histories")
+    # longer behaviours straight from the specification (TLC simulation mode)
+    sim = ctx.tlc("GlobalState", {"MaxOps": 9, "Fault": "none", "EmitCases": True}, invariants=["EmitCase"], workers=1,
+                  count=False, simulate="num=%d" % (2000 if thorough else 200), depth=10)
+    seen_sim = set()
+    for c in sim.cases:
+        key = json.dumps(c, sort_keys=True)
+        if key in seen_sim:
+            continue
+        seen_sim.add(key)
+        cases.append({"id": "m%d" % len(seen_sim), "kind": "c15", "abs": {}, "args": {"ops": c["ops"]}})
+    ctx.notes["simulated_behaviours"] = len(seen_sim)
     # longer random histories ending in several probes
     names = ["set_mc", "restore_mc", "clear_cache", "use_cache", "parse_other", "make_trs", "mutate", "probe"]
     vias = ["trs_to_dict_str", "trs_to_dict_obj", "tract_to_dict", "tracts_to_dict", "tracts_to_list", "flag_lists"]
